@@ -13,7 +13,7 @@ if __name__ == "__main__":  # the `python -O` child of probe_cases: needs harnes
 from common import bits_str, hex_str, impl_error
 
 PROP = "C04"
-MODULES = ["C04", "C04a", "C04b"]
+MODULES = ["C04", "C04a", "C04b", "C04c"]
 GEN = ["Codes", "Crc", "Integrity"]
 ANCHORS = [
     "okdmr/dmrlib/etsi/crc",
@@ -106,6 +106,11 @@ def lib():
     from okdmr.dmrlib.etsi.layer2.elements.lcss import LCSS
     from okdmr.dmrlib.hytera.pdu.hrnp import HRNP, HRNPOpcodes
     from okdmr.dmrlib.hytera.pdu.hdap import HDAP
+    from okdmr.dmrlib.etsi.crc.crc8 import CRC8
+    from okdmr.dmrlib.etsi.crc.crc9 import CRC9
+    from okdmr.dmrlib.etsi.crc.crc16 import CRC16
+    from okdmr.dmrlib.etsi.crc.crc32 import CRC32
+    from okdmr.dmrlib.etsi.layer2.elements.crc_masks import CrcMasks
 
     L.__dict__.update(locals())
     L.rates = {
@@ -358,8 +363,20 @@ class Fec:
             for label, v in fixed + derived_values(par, pw):
                 sp.add((d << pw) | v)
         ctx.count(f"{self.kind}:special-parity-words", len(sp))
+        # round 4 (equality between parts): the parity field repeats the data field — left- / right-aligned, repeated to fill,
+        # complemented, bit-reversed — and the data field repeats the leading / trailing parity bits of its own code word
+        cross, pfull = set(), (1 << pw) - 1
+        for dv in range(2**k):
+            for v in (dv << (pw - k), dv, (dv << (pw - k)) | (dv >> (2 * k - pw)), rev_bits(dv, k) << (pw - k), rev_bits(dv, k), rev_bits((dv << (pw - k)) | (dv >> (2 * k - pw)), pw)):
+                cross.add((dv << pw) | (v & pfull))
+                cross.add((dv << pw) | (~v & pfull))
+        for wd in self.codewords:
+            par = int(wd[k:], 2)
+            for dv in (par >> (pw - k), par & ((1 << k) - 1)):
+                cross.add((dv << pw) | par)
+        ctx.count(f"{self.kind}:cross:parity-field-repeats-data-field-words", len(cross))
         if not ctx.thorough():
-            words = sorted(set(words) | sp)
+            words = sorted(set(words) | sp | cross)
         pairs = []
         for wv in words:
             ws = format(wv, f"0{n}b")
@@ -432,7 +449,353 @@ class Fec:
 
 
 # ------------------------------------------------------------------------------------------------
-class CrcPdu:
+# round 4: self-referential inputs ACROSS PARTS.  One part of the PDU is a check sum of (a prefix of) another part AND
+# the same bits stand in a second field: body tail == check field == CRC(body head); data tail == CRC-32 field ==
+# CRC-32(data head); serial number == low bits of the CRC-9 ...  The check sums used to CONSTRUCT such words are
+# computed here (ETSI generator polynomials, hard-coded) in every convention of this file, and — as further
+# candidates — by the library's own CRC functions; the verdict is always the property's: a library-serialised PDU
+# parses back ok, a corrupted copy within the guaranteed class is never accepted.
+REF_POLY = {8: 0x07, 9: 0x59, 16: 0x1021, 32: 0x04C11DB7}
+
+
+def ref_rem(bits, w: int) -> int:
+    """message(x) * x^w mod G(x) for the ETSI generator of width w"""
+    g, r = REF_POLY[w] | (1 << w), 0
+    for b in list(bits) + [0] * w:
+        r = (r << 1) | int(b)
+        if r >> w:
+            r ^= g
+    return r
+
+
+def bits_of(data: bytes):
+    b = bitarray(endian="big")
+    b.frombytes(bytes(data))
+    return b.tolist()
+
+
+def swap_pairs(data: bytes) -> bytes:
+    out = bytearray(data)
+    for i in range(0, len(data) - 1, 2):
+        out[i], out[i + 1] = data[i + 1], data[i]
+    return bytes(out)
+
+
+def dedupe(vals):
+    seen, out = set(), []
+    for label, v in vals:
+        if v is not None and not (isinstance(v, str) and v.startswith("ERR")) and v not in seen:
+            seen.add(v)
+            out.append((label, v))
+    return out
+
+
+def conv32(L, head: bytes):
+    """[(label, 4 octets)]: the 32-bit check sums of `head` as they may stand in a last block"""
+    import zlib
+
+    c = ref_rem(bits_of(swap_pairs(head)), 32)
+    lib_ = call(lambda: L.CRC32.calculate(head))
+    return dedupe([
+        ("CRC-32 of the octets before, little-endian trailer", c.to_bytes(4, "little")), ("CRC-32 of the octets before, big-endian", c.to_bytes(4, "big")),
+        ("CRC-32 of the octets before, octet pairs swapped", swap_pairs(c.to_bytes(4, "big"))), ("complemented CRC-32 of the octets before, little-endian", (c ^ 0xFFFFFFFF).to_bytes(4, "little")),
+        ("remainder over the unswapped octets before, big-endian", ref_rem(bits_of(head), 32).to_bytes(4, "big")), ("zlib.crc32 of the octets before, little-endian", zlib.crc32(head).to_bytes(4, "little")),
+        ("library CRC32.calculate of the octets before, little-endian", None if is_err(lib_) else lib_.to_bytes(4, "little")),
+    ])
+
+
+def conv16(L, head: bytes, own: str):
+    """[(label, 16-bit value)]: the CRC-CCITT check sums of `head`"""
+    p, m = ref_rem(bits_of(head), 16), ETSI_MASKS[own]
+    lib_ = call(lambda: L.CRC16.calculate(head, L.CrcMasks[own]))
+    c = (p ^ 0xFFFF ^ m) & 0xFFFF
+    return dedupe([
+        ("CRC-CCITT (own mask) of the octets before", c), ("CRC-CCITT (own mask) of the octets before, octets swapped", ((c & 0xFF) << 8) | (c >> 8)),
+        ("plain remainder of the octets before", p), ("inverted remainder (no mask) of the octets before", p ^ 0xFFFF), ("CRC-CCITT under the CSBK mask of the octets before", (p ^ 0xFFFF ^ ETSI_MASKS["CSBK"]) & 0xFFFF),
+        ("library CRC16.calculate of the octets before", None if is_err(lib_) else lib_ & 0xFFFF),
+    ])
+
+
+class CrossPart:
+    """mixin of CrcPdu: structured words and the search for a second valid word at burst distance"""
+
+    def lib_chk(self, word):
+        r = self.rebuild(word)
+        return None if r is None else self.get_chk(r)
+
+    def cross_part_words(self, base):
+        """[(label, word with structured data bits, PDU positions of the duplicated parts, [(label, check-field candidate)])]"""
+        L, kind, n, rng = self.L, self.kind, self.width(), self.ctx.rng
+        out = []
+        if kind in ("dh", "pi"):
+            for a in (64, 48):  # octets 8-9 (the body tail) / octets 6-7 (inside the source address)
+                for ci, (lab, v) in enumerate(conv16(L, base[:a].tobytes(), KIND_MASK[kind])):
+                    y = bitarray(base)
+                    y[a:a + 16] = int2ba(v, length=16)
+                    # a format with reserved / enumerated bits in octets 8-9 keeps the value only if it fits: other addresses are tried
+                    for _ in range(48 if a == 64 and kind == "dh" else 0):
+                        if self.rebuild(y) is not None:
+                            break
+                        y = bitarray(base)
+                        y[16:48] = int2ba(rng.getrandbits(32), length=32)
+                        cv = conv16(L, y[:a].tobytes(), KIND_MASK[kind])
+                        if ci < len(cv) and cv[ci][0] == lab:
+                            v = cv[ci][1]
+                            y[a:a + 16] = int2ba(v, length=16)
+                    out.append((f"octets {a // 8}-{a // 8 + 1} = check field = {lab}", y, list(range(a, a + 16)), [("the value that stands in the body", v)]))
+        elif kind == "slc":
+            for a in (20, 12):  # the second / the first 8-bit address of an activity update
+                head = base[:a].tolist()
+                c = ref_rem(head, 8)
+                lib_ = call(lambda: L.CRC8.calculate(bitarray(head)))
+                for lab, v in dedupe([(f"CRC-8 of the {a} bits before", c), (f"CRC-8 of the {a} bits before, bit-reversed", rev_bits(c, 8)), (f"complemented CRC-8 of the {a} bits before", c ^ 0xFF),
+                                      (f"CRC-8 of the {a} bits before and 8 zero bits", ref_rem(head + [0] * 8, 8)), (f"library CRC8.calculate of the {a} bits before", None if is_err(lib_) else lib_ & 0xFF)]):
+                    y = bitarray(base)
+                    y[a:a + 8] = int2ba(v, length=8)
+                    # the same number / the same bits as sent (the CRC-8 is sent least significant bit first)
+                    out.append((f"bits {a}-{a + 7} = check field = {lab}", y, list(range(a, a + 8)), [("the value that stands in the body", v), ("the bits that stand in the body, as sent", rev_bits(v, 8))]))
+        elif not self.last:
+            cls, types, _ = L.rates[kind]
+            m = ETSI_MASKS[KIND_MASK[kind]]
+            head = base[16:n - 16]
+            sn = base[0:7].tolist()
+            p = ref_rem(head.tolist() + sn, 9)
+            lib_ = call(lambda: L.CRC9.calculate_from_parts(head.tobytes(), ba2int(base[0:7]), L.CrcMasks[KIND_MASK[kind]]))
+            for lab, v in dedupe([("CRC-9 of the octets before and the serial number", (p ^ 0x1FF ^ m) & 0x1FF), ("plain remainder of the octets before and the serial number", p),
+                                  ("library CRC-9 of the octets before and the serial number", None if is_err(lib_) else lib_ & 0x1FF)]):
+                for nota, t in (("right-aligned", int2ba(v, length=16)), ("left-aligned", int2ba(v << 7, length=16)), ("as the field is sent", int2ba(v, length=9, endian="little").tolist() + [0] * 7)):
+                    y = bitarray(base)
+                    y[n - 16:n] = bitarray(t) if not isinstance(t, bitarray) else t
+                    out.append((f"last two data octets ({nota}) = check field = {lab}", y, list(range(n - 16, n)), [("the value that stands in the data", v)]))
+            # the FIRST two data octets = check field = CRC-9 of the octets after them and the serial number
+            tailo = base[32:n]
+            p2 = ref_rem(tailo.tolist() + sn, 9)
+            for lab, v in dedupe([("CRC-9 of the octets after and the serial number", (p2 ^ 0x1FF ^ m) & 0x1FF), ("plain remainder of the octets after and the serial number", p2)]):
+                y = bitarray(base)
+                y[16:32] = int2ba(v, length=16)
+                out.append((f"first two data octets (right-aligned) = check field = {lab}", y, list(range(16, 32)), [("the value that stands in the data", v)]))
+            # the serial number repeats the low / high bits of the CRC-9 it is covered by (searched over the 128 serial numbers)
+            for part, f in (("low", lambda c: c & 0x7F), ("high", lambda c: c >> 2)):
+                for s_ in rng.sample(range(128), 128):
+                    y = bitarray(base)
+                    y[0:7] = int2ba(s_, length=7)
+                    c = self.lib_chk(y)
+                    if c is not None and f(c) == s_ and c != 0:
+                        out.append((f"serial number = {part} 7 bits of the CRC-9", y, list(range(0, 7)), []))
+                        break
+        else:
+            a = n - 64  # the last four data octets; the CRC-32 field is n-32..n
+            head = base[16:a].tobytes()
+            for lab, t in conv32(L, head):
+                y = bitarray(base)
+                tb = bitarray(bits_of(t))
+                y[a:a + 32] = tb
+                y[n - 32:n] = tb
+                out.append((f"last four data octets = CRC-32 field = {lab}", y, list(range(a, n)), []))
+            for lab, t in conv32(L, base[16:n - 32].tobytes())[:3]:
+                y = bitarray(base)
+                y[n - 32:n] = bitarray(bits_of(t))
+                out.append((f"CRC-32 field = {lab.replace('the octets before', 'the data octets')}", y, list(range(n - 32, n)), []))
+            # the serial number repeats the low / high 7 bits of the CRC-32 field (the library's CRC-32 of the data, little-endian trailer)
+            t = conv32(L, base[16:n - 32].tobytes())[0][1]
+            for part, s_ in (("low", t[3] & 0x7F), ("high", t[0] >> 1), ("low bits of the first octet", t[0] & 0x7F)):
+                y = bitarray(base)
+                y[n - 32:n] = bitarray(bits_of(t))
+                y[0:7] = int2ba(s_, length=7)
+                out.append((f"serial number = {part} 7 bits of the CRC-32 field = CRC-32 of the data octets", y, list(range(0, 7)) + list(range(n - 32, n)), []))
+            for lab, t in conv32(L, base[48:n - 32].tobytes())[:3]:
+                y = bitarray(base)
+                tb = bitarray(bits_of(t))
+                y[16:48] = tb
+                y[n - 32:n] = tb
+                out.append((f"first four data octets = CRC-32 field = {lab.replace('the octets before', 'the data octets after them')}", y, list(range(16, 48)) + list(range(n - 32, n)), []))
+        return out
+
+    def derived_check_candidates(self, P, parts):
+        """check values the library assigns when a duplicated part is left out / zeroed / counted from elsewhere (a checker
+        that skips a part would expect exactly these)"""
+        n = self.width()
+        out = []
+        z = bitarray(P)
+        for p_ in parts:
+            z[p_] = 0
+        out.append(("the check value of the PDU with the duplicated parts zeroed", self.lib_chk(z)))
+        if self.kind in ("r12", "r34", "r1") and self.last:
+            z = bitarray(P)
+            z[n - 32:n] = 0
+            out.append(("the check value of the block without its CRC-32 field", self.lib_chk(z)))
+            z = bitarray(P)
+            z[n - 64:n - 32] = 0
+            out.append(("the check value of the block with its last four data octets zeroed", self.lib_chk(z)))
+            # the library's CRC-9 over other selections of the same parts (a duplicated part dropped, not zeroed)
+            L, m = self.L, self.L.CrcMasks[KIND_MASK[self.kind]]
+            data, c32, sn = P[16:n - 32].tobytes(), P[n - 32:n].tobytes(), ba2int(P[0:7])
+            for lab, args in (("data without its last four octets | CRC-32 | serial number", (data[:-4], sn, m, c32)), ("data without its last four octets | serial number", (data[:-4], sn, m)),
+                              ("data without its first four octets | CRC-32 | serial number", (data[4:], sn, m, c32))):
+                v = call(L.CRC9.calculate_from_parts, *args)
+                out.append((f"the CRC-9 of {lab}", None if is_err(v) else v & 0x1FF))
+        return [(l, v) for l, v in out if v]
+
+    def pair_search(self, tag, P, c_R, parts, klass, pairs, memo):
+        """P: library-serialised word; R = P with the check field c_R.  Search for a library-serialised word S such that
+        S xor R is a burst of at most check-width bits in code order, using the affine structure of the check value as
+        MEASURED on the library's serialiser next to P (three neighbours; one column per window position).  In a sound
+        library there is none when R is itself valid (c_R = the library's value) and exactly one per window otherwise;
+        every S found is judged on the real code: sent S, received R (and, when R is library-serialised, sent R,
+        received S)."""
+        ctx, rng = self.ctx, self.ctx.rng
+        n, w, order = self.width(), self.check_width(), self.code_order()
+        d = n - w
+        inv = {p_: j for j, p_ in enumerate(order)}
+
+        def flip(word, *ps):
+            r = bitarray(word)
+            for p_ in ps:
+                r.invert(p_)
+            return r
+
+        if "lin" not in memo:
+            memo["lin"] = None
+            free = [p_ for p_ in self.free_pos() if p_ not in parts]
+            for _ in range(8):
+                if len(free) < 2:
+                    break
+                u0, u1 = rng.sample(free, 2)
+                a0, a1, a01 = self.lib_chk(flip(P, u0)), self.lib_chk(flip(P, u1)), self.lib_chk(flip(P, u0, u1))
+                if None not in (a0, a1, a01):
+                    memo["lin"] = (u0, a0, a0 ^ a1 ^ a01, {})
+                    break
+        if memo["lin"] is None:
+            ctx.count(f"{tag}:cross:no-neighbours")
+            return
+        if c_R == 0:
+            return  # an all-zero received check field is the recorded sentinel
+        u0, a0, a_pred, cols = memo["lin"]
+        delta = c_R ^ a_pred
+        R = self.set_chk(P, c_R)
+        if delta == 0:
+            ctx.count(f"{tag}:cross:check-value-is-the-affine-prediction(no-second-valid-word-to-look-for)")
+            return
+        ctx.count(f"{tag}:cross:check-value-differs-from-the-affine-prediction")
+        b0 = flip(P, u0)
+        js_parts = sorted(inv[p_] for p_ in parts if inv[p_] < d)
+        starts = set()
+        if js_parts:
+            starts |= {js_parts[-1] + 1 - w, js_parts[0], js_parts[-1] + 1 - w // 2, rng.choice(js_parts)}
+        starts |= {d - w // 2, d - w + 1, rng.randrange(0, d)}
+        R_is_serialised = self.rebuild(R) == R
+        for j0 in sorted(j for j in starts if 0 <= j <= n - w):
+            colv, js = [], []
+            for j in range(j0, j0 + w):
+                if j >= d:
+                    colv.append(1 << (n - 1 - j))
+                    js.append(j)
+                    continue
+                p_ = order[j]
+                if p_ == u0:
+                    continue
+                if p_ not in cols:
+                    a = self.lib_chk(flip(b0, p_))
+                    cols[p_] = None if a is None else a ^ a0
+                if cols[p_] is not None:
+                    colv.append(cols[p_])
+                    js.append(j)
+            x = gf2_solve(colv, delta)
+            if x is None:
+                ctx.count(f"{tag}:cross:window-unsolved")
+                continue
+            e = [j for j, xi in zip(js, x) if xi]
+            pat = tuple(sorted(order[j] for j in e))
+            S = apply_pattern(R, pat)
+            if self.rebuild(S) != S:
+                ctx.count(f"{tag}:cross:window-solution-not-a-serialised-word")
+                continue
+            where = "data and check bits" if any(j >= d for j in e) and any(j < d for j in e) else "check bits" if all(j >= d for j in e) else "data bits"
+            ctx.case((tag, "cross-pair", barg(S), pat))
+            ctx.count(f"{tag}:cross:serialised-word-at-burst-distance-of-the-structured-word")
+            ps, inds, f0 = self.parse(S)
+            if is_err(ps) or inds is not True:
+                ctx.fail("selfcheck", {"pdu": self.kind, "last": self.last, "sent": barg(S), "special": klass},
+                         f"a library-serialised {tag} PDU next to a structured one does not parse back with its indicator true", expected=True, actual=str(ps if is_err(ps) else inds))
+                continue
+            extra = {"class": "cross-part/" + klass, "burst": f"{len(pat)} inverted bits within {max(e) - min(e) + 1} <= {w} consecutive bits of the code order ({where})"}
+            self.judge(tag, S, R, pat, pairs, extra=extra, f0=f0)
+            if R_is_serialised:
+                self.judge(tag, R, S, pat, pairs, extra=dict(extra, direction="the structured word was sent"))
+
+    def cross_part_run(self, n_bases, full_first=1):
+        ctx, kind, rng = self.ctx, self.kind, self.ctx.rng
+        tag = kind + ("-last" if self.last else "")
+        n, w, order = self.width(), self.check_width(), self.code_order()
+        inv = {p_: j for j, p_ in enumerate(order)}
+        pairs = []
+        k = 0
+        for base in self.bases(n_bases):
+            if is_err(self.parse(base, fields=False)[0]):
+                continue
+            for label, y, parts, cands in self.cross_part_words(base):
+                P = self.rebuild(y)
+                if P is None:
+                    ctx.count(f"{tag}:cross:structured-data-not-kept-by-the-serialiser")
+                    continue
+                if self.last and not (P[n - 32:].any()):
+                    continue  # a zero CRC-32 field is left out of the CRC-9 by the constructor: another code (known finding)
+                # (a structured word whose CORRECT check value is 0 — a short LC that ends with the CRC-8 of its head always is one —
+                #  is kept: what is received with an all-zero check field falls under the known finding, everything else does not)
+                sent = barg(P)
+                ctx.count(f"{tag}:cross:structured-pdus")
+                ctx.count(f"{tag}:cross:{label.split(' = ')[0]}=...")
+                # ---- the library serialised it: it parses back ok
+                p_, ind, f0 = self.parse(P)
+                c = self.corr(P, p_)
+                if c:
+                    pairs.append(c)
+                ctx.case((tag, "cross-self", sent))
+                if is_err(p_) or ind is not True:
+                    ctx.fail("selfcheck", {"pdu": kind, "last": self.last, "sent": sent, "special": label},
+                             f"a library-serialised {tag} PDU with {label} does not parse back with its indicator true", expected=True, actual=str(p_ if is_err(p_) else ind))
+                    continue
+                correct = self.get_chk(P)
+                extra = {"class": "cross-part/" + label}
+                # ---- corruption: every single bit (first words; then the duplicated parts and a sample), bursts inside the duplicated parts
+                singles = range(n) if k < full_first else sorted(set(parts) | set(rng.sample(range(n), 16)))
+                k += 1
+                for i in singles:
+                    ctx.case((tag, "cross-bit", sent, i))
+                    self.judge(tag, P, apply_pattern(P, (i,)), (i,), pairs, corr=(i % 8 == 0), extra=extra, f0=f0)
+                js = sorted(inv[q] for q in parts)
+                for _ in range(12 if len(js) > 8 else 6):
+                    ln = rng.randint(2, min(w, len(js)))
+                    st = rng.randrange(0, len(js) - ln + 1)
+                    if js[st + ln - 1] - js[st] != ln - 1:
+                        continue
+                    pat = tuple(sorted(order[js[st] + i] for i in one_burst(rng, 0, ln)))
+                    ctx.case((tag, "cross-burst", sent, pat))
+                    ctx.count(f"{tag}:cross:burst-inside-a-duplicated-part")
+                    self.judge(tag, P, apply_pattern(P, pat), pat, pairs, corr=False, extra=extra, f0=f0)
+                # ---- the check field replaced: by the value that stands in the body, by the value of the PDU with a part left out
+                cands = dedupe(list(cands) + self.derived_check_candidates(P, parts))
+                for lab2, v in cands:
+                    if v in (correct, 0):
+                        continue
+                    r = self.set_chk(P, v)
+                    pat = tuple(i for i in range(n) if r[i] != P[i])
+                    ctx.case((tag, "cross-check", sent, v))
+                    ctx.count(f"{tag}:cross:check-field-replaced")
+                    self.judge(tag, P, r, pat, pairs, extra=dict(extra, special=lab2), f0=f0)
+                # ---- a second serialised word at burst distance of the structured one (received check field: the library's own
+                #      value, then the candidates)
+                memo = {}
+                self.pair_search(tag, P, correct, parts, label, pairs, memo)
+                for lab2, v in cands[:3]:
+                    if v not in (correct, 0):
+                        self.pair_search(tag, P, v, parts, label + "; received check field = " + lab2, pairs, memo)
+        if not ctx.search_only and ctx.driver_ok and pairs:
+            ctx.correspond(f"{tag}.cross-part", pairs)
+
+
+# ------------------------------------------------------------------------------------------------
+class CrcPdu(CrossPart):
     """one CRC-protected PDU family: how to make valid words, parse, read indicator and fields"""
 
     def __init__(self, ctx, L, kind, last=False):
@@ -1172,6 +1535,50 @@ def hrnp_cases(ctx, L):
         ctx.count("hrnp:special:packets-with-special-checksum")
         if bin(target).count("1") == 1:
             ctx.count("hrnp:packets-with-single-bit-checksum")
+    # round 4 (equality between parts): a header field repeats the checksum that covers it — packet number = checksum / its
+    # octets swapped / + 1 (fixed points of the sum: candidates from the harness' ones' complement arithmetic,
+    # confirmed on the library's own serialisation), source | destination = checksum (packet number solved)
+    rels = {
+        "packet number = checksum": lambda x: x[6:8] == x[10:12], "packet number = checksum with its octets swapped": lambda x: x[6:8] == x[10:12][::-1] and x[6] != x[7],
+        "packet number = checksum + 1": lambda x: int.from_bytes(x[6:8], "big") == int.from_bytes(x[10:12], "big") + 1, "source | destination = checksum": lambda x: x[4:6] == x[10:12],
+    }
+    for j, (rel, holds) in enumerate(list(rels.items()) * (1 if not ctx.thorough() else 3)):
+        b = None
+        for attempt in range(8):  # a fixed point need not exist for every rest of the packet: other header fields / payloads are tried
+            payload = [payloads[0], b"", odd_payload, even_payload][(j + j // 4 + attempt) % 4]
+            src, dst = rng.randrange(256), rng.randrange(256)
+            mk = (lambda pn: L.HRNP(data=payload, opcode=L.HRNPOpcodes.DATA, packet_number=pn, source=src, destination=dst)) if payload else (lambda pn: L.HRNP(opcode=L.HRNPOpcodes.CLOSE, packet_number=pn, source=src, destination=dst))
+            tmpl = call(lambda: mk(0).as_bytes())
+            if is_err(tmpl):
+                continue
+            s0 = ones_words(tmpl[0:10] + tmpl[12:])
+            if "swapped" in rel and s0 % 257:
+                # pn = 256a + b, checksum = 256b + a  <=>  257 (a + b) + rest = 0 (mod 65535 = 257 * 255): the rest of the packet must be a
+                # multiple of 257, which source | destination are chosen to make it
+                wsd = ((src << 8) | dst) - s0 % 257
+                src, dst = (wsd >> 8) & 0xFF, wsd & 0xFF
+                tmpl = call(lambda: mk(0).as_bytes())
+                if is_err(tmpl):
+                    continue
+                s0 = ones_words(tmpl[0:10] + tmpl[12:])
+            if rel.startswith("source"):
+                t_ = ((~((src << 8) | dst) & 0xFFFF) - s0) % 65535
+                cands = [c_ for c_ in (t_, t_ + 65535) if c_ <= 65535]
+            else:
+                cands = [pn for pn in range(65536) if holds(tmpl[:6] + pn.to_bytes(2, "big") + tmpl[8:10] + (~ones_fold(s0 + pn) & 0xFFFF).to_bytes(2, "big"))]
+            for cand in cands[:4]:
+                x = call(lambda: mk(cand).as_bytes())
+                if not is_err(x) and holds(x):
+                    b = x
+                    break
+            if b is not None:
+                break
+        if b is None:
+            ctx.count("hrnp:cross:unsolved")
+            continue
+        packets.append(b)
+        special_packets[b] = rel
+        ctx.count("hrnp:cross:packets-whose-header-field-repeats-the-checksum")
     pairs = []
     valid = []
     for b in packets:
@@ -1367,6 +1774,20 @@ def run(ctx):
         "HRNP: valid packets of both length parities + 19 trailing contexts and a truncated buffer, every single-bit corruption + the two octets that "
         "would complete the checksum if the sum ran past the announced length, + next packet, 0xFF, random); slot / EMB / blocks take exactly n bits "
         "(rejecting is fine, accepting a corrupted word is not); PI header of 0..13 octets (its parser takes the length from the buffer). "
+        "Round 4, class 'self-referential across parts': library-serialised PDUs in which one part is a check sum of the part before it AND the same bits stand "
+        "in a second field — data / PI header octets 8-9 (or 6-7) = CRC-CCITT of the octets before (own mask, octets swapped, plain, inverted only, another mask, the "
+        "library's own CRC16.calculate), short LC bits 20-27 = CRC-8 of the 20 bits before, confirmed block last two data octets = CRC-9 of data head and serial number "
+        "(three notations), serial number = low / high 7 bits of the CRC-9 that covers it, confirmed LAST block last four data octets = CRC-32 field = CRC-32 of the "
+        "data octets before (little-endian trailer, big-endian, octet pairs swapped, complemented, unswapped, zlib, the library's CRC32.calculate), CRC-32 field = "
+        "CRC-32 of the data; each: parses back ok; single bits (all / the duplicated parts + sample), bursts inside the duplicated parts, check field replaced by the "
+        "value that stands in the body and by the check value of the PDU with the duplicated parts zeroed / without CRC-32 field; and a SEARCH FOR A SECOND SERIALISED "
+        "WORD AT BURST DISTANCE: the library's check value is measured to be affine next to the structured word (3 neighbours, one column per window position), for "
+        "windows at the start / end / inside the duplicated parts, across the data / check boundary and at random the burst e with serialise(data ^ e) = received "
+        "check ^ e is solved over GF(2), confirmed on the library (the word IS a serialisation) and judged: sent = that word, received = the structured word with the "
+        "library's own check value (exists only if the check value is not affine at the structured word) / with the value standing in the body (one per window). "
+        "FEC words whose parity field repeats the data field (aligned, repeated, complemented, reversed) / whose data repeats parity bits of its code word; HRNP "
+        "packets whose packet number = checksum / checksum with its octets swapped / checksum + 1 (fixed points) or source|destination = checksum, x every single bit; PI headers of other "
+        "lengths ending with the CRC of their head. "
         "A boosted run widens the number of PDUs by 2 (drift) / 3 (broken proof or correspondence), per-PDU samples stay. "
         "A case is non-trivial unless it is the all-zero word; distinct = distinct (PDU, sent word, pattern)."
     )
@@ -1411,6 +1832,13 @@ def run(ctx):
     for kind in ("r12", "r34", "r1"):
         CrcPdu(ctx, L, kind, last=False).context_run(nb(ctx, 1, 3), 20 if q else 100)
         CrcPdu(ctx, L, kind, last=True).context_run(nb(ctx, 1, 3), 20 if q else 100)
+    # round 4: self-referential inputs across parts (fixed small share)
+    CrcPdu(ctx, L, "dh").cross_part_run(nb(ctx, 5, 15), 1)
+    CrcPdu(ctx, L, "pi").cross_part_run(nb(ctx, 1, 4), 1)
+    CrcPdu(ctx, L, "slc").cross_part_run(nb(ctx, 3, 9), 1)
+    for kind in ("r12", "r34", "r1"):
+        CrcPdu(ctx, L, kind, last=False).cross_part_run(nb(ctx, 2, 5), 1)
+        CrcPdu(ctx, L, kind, last=True).cross_part_run(nb(ctx, 2, 5), 1)
     hrnp_cases(ctx, L)
     ctx.exhaustive = ctx.thorough()
 
@@ -1438,6 +1866,23 @@ def sample_words(ctx, L, per_kind):
                     r = pdu.set_chk(word, v)
                     bad.append((tuple(i for i in range(n) if r[i] != word[i]), r))
             out.append((pdu, word, bad))
+        # round 4: one structured word per kind (a part repeats the check sum of the part before it) and its check field replaced by the
+        # value that stands in the body, through the same probes
+        for word in pdu.bases(1):
+            for label, y, parts, cands in pdu.cross_part_words(word)[:2]:
+                P = pdu.rebuild(y)
+                if P is None or is_err(pdu.parse(P, fields=False)[0]) or pdu.parse(P, fields=False)[1] is not True or (last and not P[n - 32:].any()):
+                    continue
+                bad = []
+                for i in sorted(set(rng.sample(parts, min(4, len(parts))))):
+                    r = apply_pattern(P, (i,))
+                    if pdu.get_chk(r) != 0 and (not last or r[n - 32:].any()):
+                        bad.append(((i,), r))
+                for _, v in cands:
+                    if v not in (0, pdu.get_chk(P)):
+                        r = pdu.set_chk(P, v)
+                        bad.append((tuple(i for i in range(n) if r[i] != P[i]), r))
+                out.append((pdu, P, bad))
     return out
 
 
@@ -1648,8 +2093,15 @@ def pi_length_cases(ctx, L):
     every single-bit error and check-field-only special value -> not ok"""
     rng = ctx.rng
     pairs = []
-    for nbytes in (0, 1, 2, 7, 8, 9, 11, 12, 13):
-        o = call(L.PIHeader, bytes(rng.getrandbits(8) for _ in range(nbytes)))
+    for nbytes, structured in [(nb_, False) for nb_ in (0, 1, 2, 7, 8, 9, 11, 12, 13)] + [(nb_, True) for nb_ in (2, 3, 7, 9, 12, 13)]:
+        data = bytes(rng.getrandbits(8) for _ in range(nbytes))
+        tail = None
+        if structured:
+            # round 4: the last two data octets are the CRC of the octets before them (and will also stand in the check field)
+            tail = conv16(L, data[:-2], "PiHeader")[rng.randrange(2)][1]
+            data = data[:-2] + tail.to_bytes(2, "big")
+            ctx.count("pi:other-length:cross:last-two-data-octets=crc-of-the-octets-before")
+        o = call(L.PIHeader, data)
         word = call(lambda: o.as_bits()) if not is_err(o) else o
         if is_err(word):
             ctx.fail("construct", {"pdu": "pi", "octets": nbytes}, f"cannot build / serialise a PI header of {nbytes} octets: {word}")
@@ -1664,7 +2116,7 @@ def pi_length_cases(ctx, L):
             continue
         n = len(word)
         correct = ba2int(word[n - 16:])
-        cands = [apply_pattern(word, (i,)) for i in range(n)] + [word[:n - 16] + int2ba(v, length=16) for _, v in special_values(16, "PiHeader") + derived_values(correct, 16) if v != correct]
+        cands = [apply_pattern(word, (i,)) for i in range(n)] + [word[:n - 16] + int2ba(v, length=16) for _, v in special_values(16, "PiHeader") + derived_values(correct, 16) + ([("data tail", tail)] if tail is not None else []) if v != correct]
         for r in cands:
             q = call(L.PIHeader.from_bits, bitarray(r))
             pairs.append((f"pi.dec {barg(r)}", q if is_err(q) else f"{b01(q.crc_ok)} {q.crc} {barg(q.as_bits())}"))
